@@ -5,13 +5,16 @@ package main
 //   sq t <mode> <wrap> T… ; E…        -> ok <value> d=<operands left> | err
 //   sq m <site> <nparams> T… ; A…     -> x <expansion> <eq|ne> <dep=ok|dep=…> | err
 //
-// T (template, prefix tokens): s:<sym> | i:<int> | U<k> | S<k> | ( T* ) | [ T* ] | { <type> (T T)* }
+// T (template, prefix tokens): s:<sym> | i:<int> | q:<letters> (a string) | U<k> | S<k>
+//     | ( T* ) | ( T+ . T ) (dotted pair) | [ T* ] | { <type> (T T)* }
 //   U<k>/S<k> = unquote / unquote-splicing of expression k.
 // E (one entry per expression k, in order): <form> V   with V a value in the same grammar, or `c!` / `r!`
 //   forms: v  a global z<k> bound to V          q  (quote V)
 //          p  (+ n-1 1)       (V = i:n)         l  (list (quote x)…)  (V a list)
 //          c! (let)  — does not compile          r! an unbound symbol — run-time error
 // mode: sv  text, reader sugar  ^T ~e ~@e       lg  text, (syntaxQuote T) (unquote e), ~@e
+//       sh  as sv, and a list (hash k v …) with symbol keys is written {k: v …} (the reader
+//           turns the braces back into that list)
 //       dr  the form is built through the Go API and run with EvalExpressions (the only way a
 //           hash *value* can be a template: the reader turns {…} into the list (hash …))
 // wrap: n  the template alone                   w  (list 7 <template> 8): operands below it
@@ -38,6 +41,7 @@ type sqv struct {
 	name string
 	n    int
 	kids []*sqv
+	tail *sqv // '(' only: the tail of a dotted pair
 }
 
 func (v *sqv) tokens(out *[]string) {
@@ -46,12 +50,18 @@ func (v *sqv) tokens(out *[]string) {
 		*out = append(*out, "s:"+v.name)
 	case 'i':
 		*out = append(*out, "i:"+strconv.Itoa(v.n))
+	case 'q':
+		*out = append(*out, "q:"+v.name)
 	case 'U', 'S':
 		*out = append(*out, string(v.kind)+strconv.Itoa(v.n))
 	case '(':
 		*out = append(*out, "(")
 		for _, k := range v.kids {
 			k.tokens(out)
+		}
+		if v.tail != nil {
+			*out = append(*out, ".")
+			v.tail.tokens(out)
 		}
 		*out = append(*out, ")")
 	case '[':
@@ -84,6 +94,8 @@ func sqParse(toks []string, i int) (*sqv, int) {
 	switch {
 	case strings.HasPrefix(t, "s:"):
 		return &sqv{kind: 's', name: t[2:]}, i + 1
+	case strings.HasPrefix(t, "q:"):
+		return &sqv{kind: 'q', name: t[2:]}, i + 1
 	case strings.HasPrefix(t, "i:"):
 		n, err := strconv.Atoi(t[2:])
 		if err != nil {
@@ -109,6 +121,14 @@ func sqParse(toks []string, i int) (*sqv, int) {
 		}
 		for i < len(toks) && toks[i] != closer {
 			var k *sqv
+			if toks[i] == "." && t == "(" && len(v.kids) > 0 {
+				k, i = sqParse(toks, i+1)
+				if k == nil || i >= len(toks) || toks[i] != closer {
+					return nil, i
+				}
+				v.tail = k
+				break
+			}
 			k, i = sqParse(toks, i)
 			if k == nil {
 				return nil, i
@@ -130,10 +150,26 @@ type sqExpr struct {
 
 // ---- rendering as program text
 
+func (v *sqv) isHashForm() bool {
+	if v.kind != '(' || v.tail != nil || len(v.kids) < 3 || len(v.kids)%2 != 1 || v.kids[0].kind != 's' || v.kids[0].name != "hash" {
+		return false
+	}
+	for i := 1; i < len(v.kids); i += 2 {
+		if v.kids[i].kind != 's' {
+			return false
+		}
+	}
+	return true
+}
+
+var sqBraces = false // mode sh: write (hash k v …) as {k: v …}
+
 func (v *sqv) text(ex []sqExpr, longhand bool, param string) string {
 	switch v.kind {
 	case 's':
 		return v.name
+	case 'q':
+		return strconv.Quote(v.name)
 	case 'i':
 		return strconv.Itoa(v.n)
 	case 'U':
@@ -149,6 +185,16 @@ func (v *sqv) text(ex []sqExpr, longhand bool, param string) string {
 			parts[i] = k.text(ex, longhand, param)
 		}
 		if v.kind == '(' {
+			if sqBraces && v.isHashForm() {
+				b := []string{}
+				for i := 1; i < len(parts); i += 2 {
+					b = append(b, parts[i]+": "+parts[i+1])
+				}
+				return "{" + strings.Join(b, " ") + "}"
+			}
+			if v.tail != nil {
+				return "(" + strings.Join(parts, " ") + " \\ " + v.tail.text(ex, longhand, param) + ")"
+			}
 			return "(" + strings.Join(parts, " ") + ")"
 		}
 		return "[" + strings.Join(parts, " ") + "]"
@@ -193,6 +239,8 @@ func (v *sqv) sexp(env *zygo.Zlisp, ex []sqExpr) (zygo.Sexp, error) {
 		return env.MakeSymbol(v.name), nil
 	case 'i':
 		return &zygo.SexpInt{Val: int64(v.n)}, nil
+	case 'q':
+		return &zygo.SexpStr{S: v.name}, nil
 	case 'U':
 		return zygo.MakeList([]zygo.Sexp{env.MakeSymbol("unquote"), sqExprSexp(env, ex, v.n)}), nil
 	case 'S':
@@ -208,6 +256,16 @@ func (v *sqv) sexp(env *zygo.Zlisp, ex []sqExpr) (zygo.Sexp, error) {
 		}
 		switch v.kind {
 		case '(':
+			if v.tail != nil {
+				tl, err := v.tail.sexp(env, ex)
+				if err != nil {
+					return nil, err
+				}
+				for i := len(kids) - 1; i >= 0; i-- {
+					tl = zygo.Cons(kids[i], tl)
+				}
+				return tl, nil
+			}
 			return zygo.MakeList(kids), nil
 		case '[':
 			return &zygo.SexpArray{Val: kids, Env: env}, nil
@@ -253,6 +311,8 @@ func sqCanon(x zygo.Sexp, out *[]string) {
 		*out = append(*out, "s:"+t.SexpString(nil))
 	case *zygo.SexpInt:
 		*out = append(*out, "i:"+strconv.FormatInt(t.Val, 10))
+	case *zygo.SexpStr:
+		*out = append(*out, "q:"+t.S)
 	case *zygo.SexpPair:
 		*out = append(*out, "(")
 		var cur zygo.Sexp = t
@@ -293,7 +353,15 @@ func sqCanon(x zygo.Sexp, out *[]string) {
 		} else if x == zygo.SexpMarker {
 			*out = append(*out, "MARKER")
 		} else {
-			*out = append(*out, "other:"+strings.ReplaceAll(x.SexpString(nil), " ", "_"))
+			// anything else (functions, stack marks …): digits (generated names) blanked
+			t := strings.ReplaceAll(x.SexpString(nil), " ", "_")
+			t = strings.Map(func(r rune) rune {
+				if r >= '0' && r <= '9' {
+					return '#'
+				}
+				return r
+			}, t)
+			*out = append(*out, "other:"+t)
 		}
 	}
 }
@@ -370,9 +438,11 @@ func sqExecT(mode, wrap string, toks []string) string {
 	var res zygo.Sexp
 	var err error
 	switch mode {
-	case "sv", "lg":
+	case "sv", "lg", "sh":
 		var prog string
-		if mode == "sv" {
+		sqBraces = mode == "sh"
+		defer func() { sqBraces = false }()
+		if mode != "lg" {
 			prog = "^" + tmpl.text(ex, false, "")
 		} else {
 			prog = "(syntaxQuote " + tmpl.text(ex, true, "") + ")"
@@ -517,6 +587,11 @@ func sqExecM(site string, nparams int, toks []string) string {
 	}
 	ex, err := env.EvalString("(macexpand " + call + ") ")
 	if err != nil {
+		// no expansion: the call itself must fail as well
+		defs, prog := sqSite(site, outer, nparams)
+		if v, ok, _ := sqRun(macdefs+" "+defs, prog); ok {
+			return "err-but-call-gave:" + strings.ReplaceAll(v, " ", "_")
+		}
 		return "err"
 	}
 	pair, isPair := ex.(*zygo.SexpPair)
@@ -552,8 +627,11 @@ type sqGen struct {
 var sqSyms = []string{"a", "b", "c", "d", "unquote", "hash", "quote"}
 
 func (s *sqGen) atom() *sqv {
-	if s.g.Rng.Intn(2) == 0 {
+	switch r := s.g.Rng.Intn(9); {
+	case r < 4:
 		return &sqv{kind: 'i', n: s.g.Rng.Intn(20)}
+	case r == 8:
+		return &sqv{kind: 'q', name: []string{"str", "k", "xy"}[s.g.Rng.Intn(3)]}
 	}
 	return &sqv{kind: 's', name: sqSyms[s.g.Rng.Intn(4)]}
 }
@@ -609,6 +687,24 @@ func (s *sqGen) expr(v *sqv, mode string) int {
 	return len(s.ex) - 1
 }
 
+// a dotted pair is pushed as written, unquote forms included: make every expression under
+// it a plain variable z<k>, which is how the driver names expressions
+func (s *sqGen) plainExprs(v *sqv) {
+	if v.kind == 'U' || v.kind == 'S' {
+		e := &s.ex[v.n]
+		if e.val == nil {
+			e.val = &sqv{kind: '('}
+		}
+		e.form = "v"
+	}
+	for _, k := range v.kids {
+		s.plainExprs(k)
+	}
+	if v.tail != nil {
+		s.plainExprs(v.tail)
+	}
+}
+
 func sqHasHash(v *sqv) bool {
 	if v.kind == '{' {
 		return true
@@ -660,6 +756,16 @@ func (s *sqGen) tmpl(depth int, mode string, inSeq bool, errs bool) *sqv {
 	if k >= 6 {
 		kind = '['
 	}
+	if k == 9 && mode == "sh" {
+		s.g.Count("node/hash-braces")
+		h := &sqv{kind: '(', kids: []*sqv{{kind: 's', name: "hash"}}}
+		n := s.g.Rng.Intn(3)
+		for i := 0; i < n; i++ {
+			val := s.tmpl(depth-1, mode, false, errs) // one item per value keeps the braces readable
+			h.kids = append(h.kids, &sqv{kind: 's', name: "k" + strconv.Itoa(i)}, val)
+		}
+		return h
+	}
 	if k == 9 && hashOK {
 		s.g.Count("node/hash")
 		h := &sqv{kind: '{', name: "hash"}
@@ -684,6 +790,11 @@ func (s *sqGen) tmpl(depth int, mode string, inSeq bool, errs bool) *sqv {
 	}
 	if kind == '(' && len(v.kids) == 2 && v.kids[0].kind == 's' && (v.kids[0].name == "unquote" || v.kids[0].name == "unquote-splicing") {
 		v.kids = append(v.kids, s.atom()) // keep literal lists unambiguous
+	}
+	if kind == '(' && len(v.kids) > 0 && s.g.Rng.Intn(15) == 0 {
+		v.tail = s.atom()
+		s.plainExprs(v)
+		s.g.Count("node/dotted-pair")
 	}
 	if kind == '(' {
 		s.g.Count("node/list")
@@ -794,8 +905,8 @@ func sqExhaustive(g *Gen, maxLen int) {
 }
 
 type sqMacCase struct {
-	nparams int
-	body    string // template tokens
+	params string // per parameter: e = used as an expression, l = spliced (a list of expressions)
+	body   string // template tokens
 }
 
 func sqMustParse(src string) *sqv {
@@ -808,62 +919,73 @@ func sqMustParse(src string) *sqv {
 }
 
 var sqMacBodies = []sqMacCase{
-	{2, "( s:+ U0 U1 )"},
-	{2, "( s:list U0 U1 )"},
-	{1, "( s:list S0 )"},
-	{2, "( s:list S0 S1 )"},
-	{2, "( s:list S0 U1 S0 )"},
-	{2, "[ U0 S1 ]"},
-	{2, "[ S1 U0 S1 ]"},
-	{1, "( s:begin S0 )"},
-	{2, "( s:cond U0 U1 i:0 )"},
-	{2, "( s:list ( s:quote U0 ) U1 )"},
-	{2, "( s:let [ s:t U0 ] ( s:+ s:t U1 ) )"},
-	{2, "( s:list U0 [ S1 U0 ] ( s:list S1 ) )"},
-	{2, "( s:quote ( U0 S1 ) )"},
-	{2, "( s:concat U0 ( s:list S1 ) )"},
-	{2, "( s:list ( s:list ( s:list ( s:+ U0 i:1 ) S1 ) U0 ) )"},
-	{0, "( s:+ i:1 i:2 )"},
-	{1, "U0"},
-	{3, "( s:list U0 S1 U2 S1 )"},
-	{1, "( s:def s:g U0 )"},
+	{"ee", "( s:+ U0 U1 )"},
+	{"ee", "( s:list U0 U1 )"},
+	{"l", "( s:list S0 )"},
+	{"ll", "( s:list S0 S1 )"},
+	{"le", "( s:list S0 U1 S0 )"},
+	{"el", "[ U0 S1 ]"},
+	{"el", "[ S1 U0 S1 ]"},
+	{"l", "( s:begin S0 )"},
+	{"ee", "( s:cond U0 U1 i:0 )"},
+	{"ee", "( s:list ( s:quote U0 ) U1 )"},
+	{"ee", "( s:let [ s:t U0 ] ( s:+ s:t U1 ) )"},
+	{"el", "( s:list U0 [ S1 U0 ] ( s:list S1 ) )"},
+	{"el", "( s:quote ( U0 S1 ) )"},
+	{"el", "( s:concat U0 ( s:list S1 ) )"},
+	{"el", "( s:list ( s:list ( s:list ( s:+ U0 i:1 ) S1 ) U0 ) )"},
+	{"", "( s:+ i:1 i:2 )"},
+	{"", "( )"},
+	{"e", "U0"},
+	{"ele", "( s:list U0 S1 U2 S1 )"},
+	{"e", "( s:hash s:k U0 s:j [ U0 ] )"},
+	{"e", "( s:def s:g U0 )"},
 }
 
-var sqMacArgs = []string{
-	"i:1", "i:7", "s:a", "s:b", "( s:+ s:a i:1 )", "( s:* s:a s:b )", "( i:1 i:2 )", "( s:a s:b )", "( )",
-	"( ( s:+ s:a s:b ) i:2 )", "[ s:a i:2 ]", "( s:list s:a s:b )", "( s:quote ( s:a s:b ) )", "( s:a )",
+var sqMacExprArgs = []string{
+	"i:1", "i:7", "s:a", "s:b", "( s:+ s:a i:1 )", "( s:* s:a s:b )", "( s:list s:a s:b )",
+	"( s:quote ( s:a s:b ) )", "( )", "[ s:a i:2 ]", "q:str",
+}
+
+var sqMacListArgs = []string{
+	"( )", "( i:1 i:2 )", "( s:a s:b )", "( ( s:+ s:a s:b ) i:2 )", "( s:a )", "( ( s:list s:a ) ( ) s:b )",
 }
 
 func sqGenMain(g *Gen) {
 	// 1. fixed regression cases: the defects of the pinned tree
 	fixed := []string{
-		"t sv n ( s:a U0 s:b ) ; p i:2",                   // ^(a ~(+ 1 1) b)   reader sugar + compound
-		"t lg n ( s:a U0 s:b ) ; p i:2",                   // ^(a (unquote (+ 1 1)) b)
-		"t sv n ( s:a U0 ) ; q ( s:x s:y )",               // ~(quote (x y))
-		"t sv n [ U0 U1 ] ; l ( i:1 i:2 ) p i:3",          // ~(list …) in an array
-		"t sv n S0 ; v ( i:1 i:2 )",                       // ^~@xs   splice outside any list
-		"t sv n S0 ; v ( )",                               // ^~@()   empty
-		"t dr n S0 ; v ( i:1 i:2 i:3 )",                   //
-		"t sv w S0 ; v ( i:1 i:2 )",                       // (list 7 ^~@xs 8)
-		"t lg n ( s:a U0 s:b ) ; c!",                      // generator error inside a template
-		"t lg n ( ( s:x s:y ) S0 ) ; c!",                  // … whose explode used to eat the neighbour
-		"t dr n [ s:a U0 s:b ] ; c!",                      //
-		"t dr n { hash s:k U0 } ; c!",                     //
+		"t sv n ( s:a U0 s:b ) ; p i:2",                           // ^(a ~(+ 1 1) b)   reader sugar + compound
+		"t lg n ( s:a U0 s:b ) ; p i:2",                           // ^(a (unquote (+ 1 1)) b)
+		"t sv n ( s:a U0 ) ; q ( s:x s:y )",                       // ~(quote (x y))
+		"t sv n [ U0 U1 ] ; l ( i:1 i:2 ) p i:3",                  // ~(list …) in an array
+		"t sv n S0 ; v ( i:1 i:2 )",                               // ^~@xs   splice outside any list
+		"t sv n S0 ; v ( )",                                       // ^~@()   empty
+		"t dr n S0 ; v ( i:1 i:2 i:3 )",                           //
+		"t sv w S0 ; v ( i:1 i:2 )",                               // (list 7 ^~@xs 8)
+		"t lg n ( s:a U0 s:b ) ; c!",                              // generator error inside a template
+		"t lg n ( ( s:x s:y ) S0 ) ; c!",                          // … whose explode used to eat the neighbour
+		"t dr n [ s:a U0 s:b ] ; c!",                              //
+		"t dr n { hash s:k U0 } ; c!",                             //
 		"t dr n { hash s:a S0 s:b U1 } ; v ( i:1 s:c i:2 ) v i:5", // hash: spliced value keeps its order
 		"t dr n { hash s:a U0 s:b [ S1 ] } ; v i:1 v ( i:1 i:2 )",
-		"t dr n { hash s:a S0 } ; v ( )",                  // odd number of items: error
-		"t sv n ( S0 S0 ) ; v ( i:1 i:2 )",                // adjacent
-		"t sv n ( S0 s:m S1 ) ; v ( ) v ( )",              // first / last, empty
-		"t sv n ( s:unquote s:x s:y ) ; ",                 // three elements: literal
-		"t sv n ( s:unquote ) ; ",                         // one element: literal
+		"t dr n { hash s:a S0 } ; v ( )",                      // odd number of items: error
+		"t sv n ( S0 S0 ) ; v ( i:1 i:2 )",                    // adjacent
+		"t sv n ( S0 s:m S1 ) ; v ( ) v ( )",                  // first / last, empty
+		"t sv n ( s:unquote s:x s:y ) ; ",                     // three elements: literal
+		"t sv n ( s:unquote ) ; ",                             // one element: literal
 		"t sv n ( s:a ( s:syntaxQuote ( s:b U0 ) ) ) ; v i:5", // nested syntax-quote is not special
 		"t sv n ( ) ; ",
 		"t sv n [ ] ; ",
 		"t sv n U0 ; v ( i:1 i:2 )",
 		"t sv w ( s:a S0 ) ; v ( i:1 i:2 )",
-		"t sv n ( s:a S0 ) ; v i:3",                       // splice of a non-list
-		"t sv n ( s:a S0 ) ; v [ i:1 i:2 ]",               // splice of an array: not a list
+		"t sv n ( s:a S0 ) ; v i:3",         // splice of a non-list
+		"t sv n ( s:a S0 ) ; v [ i:1 i:2 ]", // splice of an array: not a list
 		"t sv n ( s:a U0 ) ; r!",
+		"t sv n ( s:a U0 . s:b ) ; v i:5",        // dotted pair: pushed as written
+		"t dr n ( ( s:a U0 . s:b ) U0 ) ; v i:5", // … inside a proper list
+		"t dr n [ ( s:a . U0 ) ] ; v i:5",
+		"t sh n ( s:hash s:k U0 s:j [ S1 ] ) ; v i:5 v ( i:1 i:2 )", // ^{k: ~x j: [~@l]} reads as a list
+		"t sv n ( q:str U0 q:k ) ; v q:xy",
 	}
 	for _, f := range fixed {
 		g.Emit("%s", f)
@@ -878,7 +1000,7 @@ func sqGenMain(g *Gen) {
 		n = 40000
 	}
 	for i := 0; i < n; i++ {
-		mode := []string{"sv", "lg", "dr", "dr"}[g.Rng.Intn(4)]
+		mode := []string{"sv", "lg", "dr", "dr", "sh"}[g.Rng.Intn(5)]
 		s := &sqGen{g: g}
 		depth := 1 + g.Rng.Intn(4)
 		var t *sqv
@@ -922,20 +1044,46 @@ func sqGenMain(g *Gen) {
 	sites := []string{"top", "fn", "let", "loop", "mac"}
 	for bi, b := range sqMacBodies {
 		body := sqMustParse(b.body)
-		combos := 6
-		if g.Thorough() {
-			combos = 60
-		}
-		for c := 0; c < combos; c++ {
-			args := make([]string, b.nparams)
-			for i := range args {
-				args[i] = sqMacArgs[g.Rng.Intn(len(sqMacArgs))]
+		np := len(b.params)
+		// all combinations of type-directed arguments, sampled when there are many
+		var combos [][]string
+		var rec func(i int, cur []string)
+		rec = func(i int, cur []string) {
+			if i == np {
+				combos = append(combos, append([]string(nil), cur...))
+				return
 			}
+			pool := sqMacExprArgs
+			if b.params[i] == 'l' {
+				pool = sqMacListArgs
+			}
+			for _, a := range pool {
+				rec(i+1, append(cur, a))
+			}
+		}
+		rec(0, nil)
+		limit := 10
+		if g.Thorough() {
+			limit = 150
+		}
+		g.Rng.Shuffle(len(combos), func(i, j int) { combos[i], combos[j] = combos[j], combos[i] })
+		if len(combos) > limit {
+			combos = combos[:limit]
+		}
+		// a few ill-typed ones (a non-list where a list is spliced): both sides must fail
+		if np > 0 {
+			bad := make([]string, np)
+			for i := range bad {
+				bad[i] = sqMacExprArgs[g.Rng.Intn(4)]
+			}
+			combos = append(combos, bad)
+		}
+		for _, args := range combos {
 			for _, site := range sites {
 				if bi == len(sqMacBodies)-1 && site != "top" {
 					continue
 				}
-				g.Emit("m %s %d %s ; %s", site, b.nparams, body.String(), strings.Join(args, " "))
+				g.Emit("m %s %d %s ; %s", site, np, body.String(), strings.Join(args, " "))
 				g.Count("m/site-" + site)
 			}
 		}
